@@ -178,7 +178,33 @@ def op_concurrent(rng, src):
     return 'concurrent-burst'
 
 
+def op_interleaved(rng, src):
+    """Two lazy parsestream() generators advanced alternately with other
+    calls in between (cooperative interleaving in one thread)."""
+    a, b = src.text(), src.text()
+    try:
+        ga = sqlparse.parsestream(a)
+        gb = sqlparse.parsestream(io.StringIO(b))
+        for k in range(6):
+            for g in (ga, gb):
+                try:
+                    next(g)
+                except StopIteration:
+                    pass
+            if k == 1:
+                sqlparse.format(a, reindent=True, output_format='python')
+            if k == 2:
+                sqlparse.split(b)
+        if rng.random() < 0.5:
+            _abandoned.extend([ga, gb])
+            del _abandoned[:-20]
+    except Exception:
+        pass
+    return 'interleaved-generators'
+
+
 OPS = [op_valid, op_valid, op_valid, op_bad_option, op_wrong_type,
+       op_interleaved,
        op_recursion, op_abandon, op_reconfigure, op_reconfigure,
        op_concurrent]
 
